@@ -212,6 +212,63 @@ def symmetric(rng: random.Random, name=None):
     return _unique_coords(mol, rng)
 
 
+def polycyclic(rng: random.Random):
+    """Hydrogen-free compact polycyclic skeleton (fused/spiro/bridged small rings, degree <= 4): refinement depth is large relative to n."""
+    n = rng.randint(6, 16)
+    atoms = [Atom("C") for _ in range(n)]
+    deg = [0] * n
+    bonds = set()
+    # random spanning path/tree biased to chains, then ring closures between near atoms
+    for v in range(1, n):
+        u = v - 1 if rng.random() < 0.75 else rng.randrange(v)
+        if deg[u] >= 4:
+            u = min(range(v), key=lambda w: deg[w])
+        bonds.add((u, v)); deg[u] += 1; deg[v] += 1
+    for _ in range(rng.randint(1, 4)):
+        u = rng.randrange(n)
+        v = u + rng.choice([2, 3, 4, 5])
+        if v < n and (u, v) not in bonds and deg[u] < 4 and deg[v] < 4:
+            bonds.add((u, v)); deg[u] += 1; deg[v] += 1
+    mol = Mol(atoms, [(a, b, 1) for a, b in sorted(bonds)], f"poly{n}", "M9")
+    if rng.random() < 0.3:
+        a = mol.atoms[rng.randrange(n)]
+        a.sym = rng.choice(["N", "O"])
+    if rng.random() < 0.3:
+        mol.atoms[rng.randrange(n)].mass = 13
+    return _unique_coords(mol, rng)
+
+
+def deep_refinement(rng: random.Random, steps=80):
+    """Small hydrogen-free skeleton searched (hill climbing over edge toggles, degree <= 4) for a LARGE number of colour-refinement
+    rounds relative to its size: the class of inputs where 'refinement ran to the fixed point' is actually exercised."""
+    from ..oracles import iso
+    mol = polycyclic(rng)
+    n = len(mol.atoms)
+    es = {(min(a, b), max(a, b)) for a, b, _ in mol.bonds}
+    cols = mol.colors()
+    best = iso.refinement_rounds(cols, es)
+    for _ in range(steps):
+        a, b = rng.sample(range(n), 2)
+        e = (min(a, b), max(a, b))
+        new = set(es)
+        if e in new:
+            new.discard(e)
+        else:
+            new.add(e)
+        deg = [0] * n
+        for x, y in new:
+            deg[x] += 1; deg[y] += 1
+        if max(deg) > 4 or min(deg) == 0:
+            continue
+        r = iso.refinement_rounds(cols, new)
+        if r >= best:
+            best, es = r, new
+    mol.bonds = [(a, b, 1) for a, b in sorted(es)]
+    mol.name = f"deep{n}r{best}"
+    mol.cls = "M9"
+    return mol
+
+
 # ---------------------------------------------------------------- M4 multi-component
 
 def multi_component(rng: random.Random):
